@@ -222,8 +222,12 @@ func c11r1(c *core.Ctx) {
 				case *ast.IfStmt, *ast.BranchStmt:
 					cond = true
 				case *ast.CallExpr:
-					if _, isC := callTo(m, y, colReset); isC && len(y.Args) >= 1 && fieldKeyOf(m, y.Args[0]) == "table.len" {
-						called = true
+					if _, isC := callTo(m, y, colReset); isC {
+						for _, a := range y.Args {
+							if fieldKeyOf(m, a) == "table.len" {
+								called = true
+							}
+						}
 					}
 				}
 				return true
@@ -278,7 +282,13 @@ func c11r1(c *core.Ctx) {
 	// column reset: all non-early paths zero [0,ownLen)
 	{
 		f := colReset
-		lenPar := f.Sig.Params().At(0)
+		// the row-count parameter: the integer parameter (position and further parameters are not assumed)
+		var lenPar *types.Var
+		for i := 0; i < f.Sig.Params().Len(); i++ {
+			if isInt(f.Sig.Params().At(i).Type()) && lenPar == nil {
+				lenPar = f.Sig.Params().At(i)
+			}
+		}
 		type st struct{ z bool }
 		paths := enumeratePaths(m, f.Body.List, func(s ast.Stmt, cur st) st {
 			ast.Inspect(s, func(n ast.Node) bool {
@@ -288,10 +298,18 @@ func c11r1(c *core.Ctx) {
 				}
 				if zeroRange != nil {
 					if _, isC := callTo(m, call, zeroRange); isC && len(call.Args) >= 2 {
-						if m.ExprString(call.Args[0]) == "0" {
-							if id, isID := ast.Unparen(call.Args[1]).(*ast.Ident); isID && m.Info.ObjectOf(id) == lenPar {
-								cur.z = true
+						// the range [0, ownLen): one argument is the constant 0, another the row-count parameter
+						zeroArg, lenArg := false, false
+						for _, a := range call.Args {
+							if tv, ok := m.Info.Types[a]; ok && tv.Value != nil && tv.Value.String() == "0" {
+								zeroArg = true
 							}
+							if id := identOf(m.StripConv(m.Inline(m.StripConv(a)))); id != nil && lenPar != nil && m.Info.ObjectOf(id) == types.Object(lenPar) {
+								lenArg = true
+							}
+						}
+						if zeroArg && lenArg {
+							cur.z = true
 						}
 					}
 				}
